@@ -223,13 +223,45 @@ def validate_recvmsg_fake(ctx):
             s.close()
 
 
+import enum as _enum
+
+
+class AddressFamily(_enum.IntEnum):
+    """socket.AddressFamily as it prints before Python 3.11: str() gives 'AddressFamily.AF_INET',
+    int(), '%d' and comparisons are the usual ones."""
+    AF_INET = 2
+    AF_INET6 = 10
+
+    def __str__(self):
+        return 'AddressFamily.' + self.name
+
+    def __repr__(self):
+        return '<AddressFamily.%s: %d>' % (self.name, int(self))
+
+    def __format__(self, spec):
+        return int.__format__(int(self), spec)
+
+
+def listener_family(kind, family):
+    """What `listener.family` looks like on the platform: a plain int, today's socket constant,
+    or the pre-3.11 enum."""
+    if kind == 'int':
+        return int(family)
+    if kind == 'old':
+        return AddressFamily(family)
+    return AF[family]
+
+
+FAMILY_ROTATION = ['enum', 'old', 'int']
+
+
 class FakeListener:
     """One listening datagram socket of a MultiListener."""
 
     def __init__(self, world, kind, family):
         self.w = world
         self.kind = kind
-        self.family = AF[family]
+        self.family = listener_family(world.famkind, family)
         self.fam = family
         self.pending = None   # (src tuple, dst tuple|None, data)
 
@@ -418,8 +450,9 @@ VERBOSITY_ROTATION = [0, 0, 3, 0, 2, 0, 13, 1]
 
 
 def at_level(cfg, i, seed):
-    cfg = ' '.join(w for w in cfg.split() if not w.startswith('v='))
-    return '%s v=%d' % (cfg, VERBOSITY_ROTATION[(i + seed) % len(VERBOSITY_ROTATION)])
+    cfg = ' '.join(w for w in cfg.split() if not w.startswith(('v=', 'fam=')))
+    return '%s v=%d fam=%s' % (cfg, VERBOSITY_ROTATION[(i + seed) % len(VERBOSITY_ROTATION)],
+                               FAMILY_ROTATION[(i + seed) % len(FAMILY_ROTATION)])
 
 
 # ------------------------------------------------------------------ the world
@@ -447,6 +480,7 @@ class World:
         # verbosity of the real code in this scenario: 0..3 = sshuttle.helpers.verbose, 13 = level 3 with a
         # stderr whose write() fails with EIO (a vanished terminal).  Behaviour must not depend on it.
         self.vlevel = int(kv(w, 'v', '0'))
+        self.famkind = kv(w, 'fam', 'enum')   # how listener.family looks: enum | old | int
         fds = kv(w, 'fds')              # descriptor budget of the server process (EMFILE beyond it)
         self.fd_budget = int(fds) if fds else None
         self.gen = None
@@ -726,6 +760,14 @@ class World:
             else:
                 chans.append('%d:u' % k)
         c = self.client
+        live = [k for k in m.channels if k is not None and m.channels[k]]
+        if len(live) > 48:
+            # hundreds of outstanding queries / associations: counts and sums (same rule in the Lean driver)
+            return 'chani=%d big nch=%d sch=%d ndns=%d sdns=%d ddns=%d nudp=%d sudp=%d dudp=%d' % (
+                getattr(m, 'chani', -1), len(live), sum(live),
+                len(c.dnsreqs), sum(c.dnsreqs), sum(round(v * TICKS) for v in c.dnsreqs.values()),
+                len(c.udp_by_src), sum(v[0] for v in c.udp_by_src.values()),
+                sum(round(v[1] * TICKS) for v in c.udp_by_src.values()))
         return 'chani=%d chans=%s dns=%s udp=%s' % (
             getattr(m, 'chani', -1), join_or(',', chans),
             join_or(',', ('%d@%d' % (k, round(v * TICKS)) for k, v in c.dnsreqs.items())),
@@ -828,6 +870,14 @@ class World:
 
     def server_state(self):
         dns, udp = [], []
+        dh = [h for h in self.shandlers if isinstance(h, self.RecDnsProxy)]
+        uh = [h for h in self.shandlers if isinstance(h, self.RecUdpProxy)]
+        if len(dh) + len(uh) > 48:
+            chs = [k for k, v in self.smux.channels.items() if v]
+            return 'big ndns=%d sdns=%d tries=%d okdns=%d ndmap=%d nudp=%d sudp=%d okudp=%d numap=%d nch=%d sch=%d' % (
+                len(dh), sum(h.chan for h in dh), sum(h.tries for h in dh), sum(1 for h in dh if h.ok),
+                len(self.dnshandlers), len(uh), sum(h.chan for h in uh), sum(1 for h in uh if h.ok),
+                len(self.udphandlers), len(chs), sum(chs))
         for h in self.shandlers:
             if isinstance(h, self.RecDnsProxy):
                 dns.append('%d:%d:%d:%s:%d@%d' % (h.hid, h.chan, h.tries, join_or(',', (str(s.sid) for s in h.socks)),
@@ -1762,6 +1812,42 @@ def corpus(focus):
     return cases
 
 
+def scale_cases(focus, thorough):
+    """Histories with many concurrently outstanding queries / associations (client side; the tables'
+    expiry is what is at stake): all idle past the deadline, or a busy prefix kept alive by traffic while
+    the rest go idle; then accept events and late replies."""
+    T = 30 * TICKS
+    cases = []
+    cfg = 'cfg method=tproxy max=65535 probes=1024 ns=1.1.1.1 tons=-'
+
+    def src(i):
+        return '10.%d.%d.%d|%d' % (1 + i // 65536, (i // 256) % 256, i % 256, 2000 + i % 50000)
+    sizes = [1, 5, 64, 65, 128, 129, 300] + ([1000] if thorough else [])
+    for n in sizes:
+        if focus == 'dns':
+            st = ['cdns 2 %s 9.9.9.9|53 %04x' % (src(i), i) for i in range(n)]
+            st += ['tick %d' % T, 'caccept', 'tick 1', 'caccept']
+            # late replies for the first, the 65th/129th and the last query: nobody may get them any more
+            for k in sorted({1, min(n, 65), min(n, 129), n}):
+                st.append('cinject %d.16907.beef' % k)
+            st += ['cdns 2 %s 9.9.9.9|53 ffff' % src(n), 'caccept']
+            cases.append(('scale-dns-%d-outstanding' % n, cfg, st))
+        else:
+            st = ['cudp 2 %s 5.6.7.8|99 %04x' % (src(i), i) for i in range(n)]
+            st += ['tick %d' % T, 'caccept', 'tick 1', 'caccept', 'cudp 2 %s 5.6.7.8|99 ffff' % src(0), 'caccept']
+            cases.append(('scale-udp-%d-idle' % n, cfg, st))
+            if n >= 65:
+                busy = 64
+                st = ['cudp 2 %s 5.6.7.8|99 %04x' % (src(i), i) for i in range(n)]
+                st += ['tick %d' % (20 * TICKS)]
+                st += ['cudp 2 %s 5.6.7.8|99 aa' % src(i) for i in range(busy)]      # the prefix stays busy
+                st += ['tick %d' % (10 * TICKS + 1), 'caccept',                        # the rest is idle now
+                       'cudp 2 %s 5.6.7.8|99 bb' % src(busy), 'caccept',
+                       'cdns 2 %s 9.9.9.9|53 00' % src(0), 'tick %d' % (25 * TICKS), 'caccept']
+                cases.append(('scale-udp-%d-busy-prefix' % n, cfg, st))
+    return cases
+
+
 IDREUSE = {
     'dns': ('cfg method=tproxy max=2 probes=1024 ns=1.1.1.1 tons=-',
             ['cdns 2 10.0.0.5|4000 9.9.9.9|53 aa', 'tick 5120', 'sround 1', 'tick %d' % (30 * TICKS - 5119),
@@ -1816,6 +1902,8 @@ def execute(kind, cfg, steps, seed):
 def minimise(prop, cfg, steps, seed, key, budget=120):
     """Greedy removal of steps while the same violation key still fires on the real code."""
     cur = list(steps)
+    if len(cur) > 150:
+        return cur          # a history at scale is its own witness
     i = len(cur) - 1
     while i >= 0 and budget > 0:
         trial = cur[:i] + cur[i + 1:]
@@ -1838,6 +1926,9 @@ def run_property(ctx, prop, focus):
     for name, cfg, steps in corpus(focus):
         logs.append(execute('corpus:' + name, at_level(cfg, nth, ctx.seed), steps, 0))
         nth += 1
+    for name, cfg, steps in scale_cases(focus, ctx.thorough):
+        logs.append(execute(name, at_level(cfg, nth, ctx.seed), steps, 0))
+        nth += 1
     cfg, steps = IDREUSE[focus]
     logs.append(execute('id-reuse', at_level(cfg, nth, ctx.seed), steps, 0))
     n = ctx.scale(260, 2400)
@@ -1852,6 +1943,7 @@ def run_property(ctx, prop, focus):
         ctx.count()
         ctx.hist('case:' + lg.kind.split(':')[0])
         ctx.hist('verbosity:' + (kv(lg.cfg.split(), 'v', '0')))
+        ctx.hist('listener-family:' + (kv(lg.cfg.split(), 'fam', 'enum')))
         for k, v in lg.hist.items():
             ctx.hist(k, v)
         ctx.mark((lg.cfg, lg.steps), nontrivial=len(lg.hist) > 1)
